@@ -245,3 +245,7 @@ MUTANTS["C16"] = [
     ("var-read-wraps-signed-byte", [(E3S, "        return int(value)\n\n\n    def var_write_int32", "        return int(value) if int(value) < 128 else int(value) - 256\n\n\n    def var_write_int32")]),
     ("query-enabled-swapped", [(M3, "        return res_map[int(res_list[0])], res_map[int(res_list[1])]", "        return res_map[int(res_list[1])], res_map[int(res_list[0])]")]),
 ]
+
+
+# ---- state carried between calls (memo keyed without one argument): caught by the "earlier calls" variations
+MUTANTS["C01"].append(("memo-ignores-accumulator", [(CALC, "def move_dist_lt(rate, accel, time, accum=\"clear\"):", "_LT_MEMO = {}\n\n\ndef move_dist_lt(rate, accel, time, accum=\"clear\"):\n    key = (rate, accel, time, accum == \"clear\")\n    if key not in _LT_MEMO:\n        if len(_LT_MEMO) > 64:\n            _LT_MEMO.clear()\n        _LT_MEMO[key] = _move_dist_lt(rate, accel, time, accum)\n    return _LT_MEMO[key]\n\n\ndef _move_dist_lt(rate, accel, time, accum=\"clear\"):")]))
